@@ -36,7 +36,7 @@ func c02Gen(seed uint64, tier string) any {
 	o.RandMeth = r.Chance(1, 3)
 	o.BigNums = false
 	if r.Chance(1, 3) {
-		sc.Host = HostSpec{Custom: true, CustomTok: "XX", HandlerPlan: randPlan(r, 16), StLog: true}
+		sc.Host = HostSpec{Custom: true, CustomTok: "XX", HandlerPlan: randPlanFaulty(r, 16), StLog: true}
 		o.CustomTok = "XX"
 	}
 	g := NewProgGen(r.Fork(), o)
